@@ -15,7 +15,7 @@ import warnings
 from sim import rng
 from sim.base import BaseCheck
 
-VERSIONS = [None, '2.0', '3.0', '2.5', '3.0.0', '1.0', '4.0']
+VERSIONS = [None, '2.0', '3.0', '2.5', '3.0.0', '1.0', '4.0', '2', '2.0.0', '3']
 V3_KINDS = ['na', 'list', 'dict', 'grid', 'xstr']
 COLS = ['a', 'b']
 
@@ -150,7 +150,7 @@ class C10(BaseCheck):
                 ctor['cols'][c].append(['c%d' % j, gen_value(r, p_v3 / 2)])
         kinds = ['meta_set', 'meta_append', 'meta_extend', 'meta_add_item', 'meta_update', 'meta_setdefault',
                  'col_meta_set', 'col_meta_append', 'col_meta_extend', 'col_assign',
-                 'append', 'insert', 'extend', 'iadd', 'setitem', 'row_poke']
+                 'append', 'insert', 'extend', 'iadd', 'setitem', 'row_poke', 'col_poke', 'derive']
         enabled = [x for x in kinds if k.random() < 0.7] or ['append']
         n = k.choice([2, 3, 4, 6, 8, 12]) if tier == 'quick' else k.choice([3, 6, 12, 20, 30])
         ops = []
@@ -181,6 +181,13 @@ class C10(BaseCheck):
                 o['i'] = r.randrange(3)
                 o['c'] = r.choice(COLS)
                 o['v'] = gen_value(r, 0.8)
+            elif op == 'col_poke':
+                o['c'] = r.choice(COLS)
+                o['k'] = 'c%d' % r.randrange(3)
+                o['v'] = gen_value(r, 0.8)
+            elif op == 'derive':
+                o['how'] = r.choice(['slice', 'slice-rev', 'filter-limit', 'columns-of', 'filter-expr'])
+                o['ver'] = r.choice(VERSIONS[1:])
             ops.append(o)
         return {'class': 'history', 'gver': gver, 'ctor': ctor, 'ops': ops,
                 'reparse_every': k.choice([0, 3, 5])}
@@ -338,6 +345,45 @@ class C10(BaseCheck):
                     g.extend([{c: mkv(hs, s) for c, s in rw.items()} for rw in o['rows']])
                 elif op == 'iadd':
                     g += [{c: mkv(hs, s) for c, s in rw.items()} for rw in o['rows']]
+                elif op == 'col_poke':
+                    # in-place edit of a plain dict previously assigned as column metadata: like a row
+                    # poke, the grid cannot see it, so only the writers are judged afterwards
+                    if hasattr(g.column[o['c']], 'add_item'):
+                        skipped = True
+                    else:
+                        g.column[o['c']][o['k']] = mkv(hs, o['v'])
+                        if is_v3(o['v']):
+                            poked = True
+                            stats['fault.in_place_column_poke'] = stats.get('fault.in_place_column_poke', 0) + 1
+                elif op == 'derive':
+                    # continue the history on a grid derived from this one: slices, filter results and
+                    # grids built from another grid's columns carry their own explicit version
+                    how = o['how']
+                    if grid_has_v3(hs, g) and not self.accepts(str(g.version)):
+                        skipped = True       # an in-place edit made this grid inconsistent: deriving from it is (rightly) refused
+                    elif grid_has_v3(hs, g) and how == 'columns-of' and not self.accepts(o['ver']) and \
+                            any(has_v3_value(hs, v) for m_ in g.column.values() for v in m_.values()):
+                        skipped = True       # would (rightly) be refused by the constructor; not the point here
+                    else:
+                        if how == 'slice':
+                            ng = g[:]
+                        elif how == 'slice-rev':
+                            ng = g[::-1]
+                        elif how == 'filter-limit':
+                            ng = g.filter('', 5) if nrows else g[:]
+                        elif how == 'filter-expr':
+                            ng = g.filter('a or not a')
+                        else:
+                            ng = hs.Grid(version=o['ver'], columns=g.column)
+                            for row in g:
+                                if self.accepts(o['ver']) or not any(has_v3_value(hs, v) for v in row.values()):
+                                    ng.append(row)
+                        g = ng
+                        gver = str(g.version)
+                        explicit = True
+                        pre3 = not self.accepts(gver)
+                        last_ver = hs.Version(gver)
+                        stats['derived_grids'] = stats.get('derived_grids', 0) + 1
                 elif op == 'row_poke':
                     if nrows == 0:
                         skipped = True
@@ -352,6 +398,11 @@ class C10(BaseCheck):
                 exc = e
             if skipped:
                 continue
+            if op == 'derive' and exc is None:
+                events.append((step, 'derive:' + o['how'], gver))
+                skeleton.append('derive:' + o['how'])
+                if poked and grid_has_v3(hs, g) is None:
+                    poked = False
             kinds = sorted(set(self._kind(s) for s in specs if is_v3(s)))
             tag = '%s:%s' % (op, '+'.join(kinds) or 'plain')
             if exc is not None:
@@ -380,7 +431,7 @@ class C10(BaseCheck):
             else:
                 events.append((step, tag, 'ok'))
                 skeleton.append(tag)
-                if v3 and op != 'row_poke':
+                if v3 and op not in ('row_poke', 'col_poke'):
                     met_decision += 1
                     if pre3:
                         viol = fail('not-refused', step=step, op=o, version=gver, kinds=kinds,
